@@ -130,7 +130,7 @@ class Field:
         return self() @ other
 
     def __rmatmul__(self, other) -> FeArray.FeArrayALike:
-        return self.__matmul__(other)
+        return other @ self()
 
     def __add__(self, other) -> FeArray.FeArrayALike:
         return self() + other
@@ -142,13 +142,13 @@ class Field:
         return self() - other
 
     def __rsub__(self, other) -> FeArray.FeArrayALike:
-        return self.__sub__(other)
+        return other - self()
 
     def __truediv__(self, other) -> FeArray.FeArrayALike:
         return self() / other
 
     def __rtruediv__(self, other) -> FeArray.FeArrayALike:
-        return self.__truediv__(other)
+        return other / self()
 
     def __call__(self) -> FeArray.FeArrayALike:
         """Returns the field as a finite element array."""
